@@ -18,15 +18,14 @@ import (
 
 func (a *analysis) run() {
 	a.collectFuncs()
-	// 1. which functions return only fresh memory (greatest fixpoint: start optimistic)
-	for iter := 0; iter < 30; iter++ {
+	// 1. summaries: what pre-existing memory the results of every function may reach (least fixpoint: grows)
+	for iter := 0; iter < 40; iter++ {
 		changed := false
 		for _, fn := range a.fnList {
+			fn.summaryChanged = false
 			x := &fnAn{a: a, fn: fn}
 			x.computeEnv()
-			rf := fn.retRoots.onlyFresh()
-			if fn.returnsFresh && !rf {
-				fn.returnsFresh = false
+			if fn.summaryChanged {
 				changed = true
 			}
 		}
@@ -52,9 +51,16 @@ func (a *analysis) run() {
 						if idx > len(cand.paramList) {
 							idx = len(cand.paramList)
 						}
-						if cand.paramWritten(idx) {
+						for _, w := range cand.paramWrites(idx) {
 							for r := range ar {
-								if r.kind != "fresh" && fn.addWrite(r, "passed to a function that writes through it", cs.pos, cand.qname) {
+								// what the argument aliases, and what it holds through the field the callee writes through
+								if isFresh(r) || !(r.via == "" || r.via == w.r.field || (r.via == "[]" && w.r.field == "")) {
+									continue
+								}
+								if r.field == "" {
+									r.field = w.r.field
+								}
+								if fn.addWrite(r, "passed to a function that writes through it", cs.pos, cand.qname, w.storage) {
 									changed = true
 								}
 							}
@@ -93,9 +99,18 @@ func (a *analysis) run() {
 						}
 						continue
 					}
-					if cand.mutatesRecv() {
+					for _, w := range cand.sortedWrites() {
+						if w.r.kind != "recv" || w.lock {
+							continue
+						}
+						// only a receiver that is itself a slice / map (array_, map_) has its storage written by the call;
+						// a struct sub-object looks after its own storage
+						storage := w.storage && cand.recvStruct != nil && !cand.recvStruct.isStruct
 						for r := range cs.recvRoots {
-							if r.kind != "fresh" && fn.addWrite(r, "calls mutating method "+cs.callee.Name(), cs.pos, cand.qname) {
+							if isFresh(r) || !(r.via == "" || r.via == w.r.field || (r.via == "[]" && w.r.field == "")) {
+								continue
+							}
+							if fn.addWrite(r, "calls mutating method "+cs.callee.Name(), cs.pos, cand.qname, storage) {
 								changed = true
 							}
 						}
@@ -129,6 +144,9 @@ func (a *analysis) run() {
 						switch r.kind {
 						case "param":
 							src = "arg " + r.name + " of " + fn.qname
+							if r.field != "" {
+								src += " field " + r.field
+							}
 						case "recv":
 							if r.field != "" {
 								src = "field " + r.field
@@ -194,17 +212,18 @@ func (fn *fnInfo) sortedWrites() []writeEvent {
 	return res
 }
 
-func (fn *fnInfo) paramWritten(idx int) bool {
-	for _, w := range fn.writes {
+func (fn *fnInfo) paramWrites(idx int) []writeEvent {
+	var res []writeEvent
+	for _, w := range fn.sortedWrites() {
 		if w.r.kind == "param" && !w.lock {
 			var pi int
 			fmt.Sscanf(w.r.name, "%d:", &pi)
 			if pi == idx {
-				return true
+				res = append(res, w)
 			}
 		}
 	}
-	return false
+	return res
 }
 
 func (fn *fnInfo) mutatesRecv() bool {
@@ -453,7 +472,7 @@ func (a *analysis) returnsRegistered(fn *fnInfo, g *globalInfo, inside func(toke
 		for r := range rs {
 			if r.kind == "global" && r.name == g.short {
 				fromRegistry = true
-			} else if r.kind != "fresh" {
+			} else if !isFresh(r) {
 				ok = false
 				row.Why = append(row.Why, fmt.Sprintf("the returned class assigned at %s comes from %s %s", a.pos(pos), r.kind, r.name))
 			}
@@ -566,6 +585,10 @@ type report struct {
 	Methods       []methodRow         `json:"methods"`
 	Escapes       [][3]string         `json:"escapes"` // function, through, how
 	ClassLits     [][2]string         `json:"class_literals"`
+	Api           [][3]string         `json:"api"`            // exported function, "result k" / "parameter n", verdict ("fresh" / "not-retained" / what it aliases, joined by "; ")
+	StorageWrites [][3]string         `json:"storage_writes"` // method, receiver field (or struct.[] for a slice / map receiver), how
+	FieldSets     [][3]string         `json:"field_sets"`     // method, field, what non-fresh value it is set to
+	PublishOnce   []string            `json:"publish_once"`   // storage fields only ever set to fresh memory and never written in place
 	Details       []detail            `json:"details"`
 	Blind         map[string][]string `json:"blind_spots"`
 }
@@ -839,6 +862,7 @@ func (a *analysis) report() *report {
 		}
 	}
 	rep.Escapes = sorted3(esc)
+	a.apiReport(rep, det)
 	sort.Slice(rep.Methods, func(i, j int) bool { return rep.Methods[i].Name < rep.Methods[j].Name })
 	sort.Slice(rep.Details, func(i, j int) bool {
 		if rep.Details[i].What != rep.Details[j].What {
@@ -847,6 +871,194 @@ func (a *analysis) report() *report {
 		return rep.Details[i].Words < rep.Details[j].Words
 	})
 	return rep
+}
+
+// does a non-struct type of the library (array_ = []V, map_ = map[K]V) have all the methods of the interface?
+func (a *analysis) holdsRawStorage(t types.Type) bool {
+	switch u := t.Underlying().(type) {
+	case *types.Slice, *types.Map:
+		return true
+	case *types.Pointer:
+		_, isStruct := u.Elem().Underlying().(*types.Struct)
+		return !isStruct
+	case *types.Interface:
+		if u.NumMethods() == 0 {
+			return false
+		}
+		for _, si := range a.structList {
+			if si.isStruct || si.role != "instance" {
+				continue
+			}
+			all := true
+			for i := 0; i < u.NumMethods(); i++ {
+				if !a.hasMethod(si, u.Method(i).Name()) {
+					all = false
+					break
+				}
+			}
+			if all {
+				return true
+			}
+		}
+	}
+	return false
+}
+
+func (a *analysis) apiReport(rep *report, det func(what, where string, pos token.Pos, words string)) {
+	api := map[[3]string]bool{}
+	sw := map[[3]string]bool{}
+	fs := map[[3]string]bool{}
+	inPlace := map[string]bool{}  // field -> written in place somewhere
+	nonFresh := map[string]bool{} // field -> set to something not fresh
+	for _, fn := range a.fnList {
+		if fn.decl == nil {
+			continue
+		}
+		// --- storage written in place through the receiver, fields set to non-fresh values
+		for _, w := range fn.sortedWrites() {
+			if !w.storage || w.lock {
+				continue
+			}
+			if w.r.field != "" {
+				inPlace[w.r.field] = true
+			}
+			if w.r.kind == "recv" && fn.recvStruct != nil {
+				name := w.r.field
+				if name == "" {
+					if fn.recvStruct.isStruct {
+						name = fn.recvStruct.qname + ".*"
+					} else {
+						name = fn.recvStruct.qname + ".[]"
+					}
+				}
+				how := w.how
+				if w.via != "" {
+					how += " (" + w.via + ")"
+				}
+				k := [3]string{fn.qname, name, how}
+				if !sw[k] {
+					sw[k] = true
+					det("storage-write", fn.qname, w.pos, fmt.Sprintf("%s writes in place into storage reachable through %s: %s", fn.qname, name, how))
+				}
+			}
+		}
+		for _, f := range fn.fieldSets {
+			nonFresh[f.field] = true
+			k := [3]string{fn.qname, f.field, f.from}
+			if !fs[k] {
+				fs[k] = true
+				det("field-set", fn.qname, f.pos, fmt.Sprintf("%s sets %s to a value that is not freshly allocated: it %s", fn.qname, f.field, f.from))
+			}
+		}
+		// --- the exported interface of agent/, collection/ and the module
+		if !ast.IsExported(fn.simple) || !(fn.pkg.short == "agent" || fn.pkg.short == "collection" || fn.pkg.short == "module") {
+			continue
+		}
+		sig := fn.obj.Type().(*types.Signature)
+		for k := 0; k < sig.Results().Len(); k++ {
+			rt := sig.Results().At(k).Type()
+			kind := a.kindOf(rt)
+			if pure(rt) || !refCapable(kind) || a.statelessType(rt) {
+				continue
+			}
+			var verdict []string
+			if k < len(fn.retByIndex) {
+				for _, r := range fn.retByIndex[k].sorted() {
+					if r.kind == "alloc" {
+						if where, ok := fn.retained[r.name]; ok {
+							sort.Strings(where)
+							verdict = appendUnique(verdict, "shares memory allocated in this call with "+strings.Join(uniq(where), ", "))
+						}
+						continue
+					}
+					if !isFresh(r) {
+						verdict = appendUnique(verdict, describeRoot(r))
+					}
+				}
+			}
+			if len(verdict) == 0 {
+				verdict = []string{"fresh"}
+			}
+			row := [3]string{fn.qname, fmt.Sprintf("result %d", k+1), strings.Join(verdict, "; ")}
+			api[row] = true
+			if verdict[0] != "fresh" {
+				det("api", fn.qname, fn.decl.Pos(), fmt.Sprintf("%s of %s is not fresh: it %s", row[1], fn.qname, row[2]))
+			}
+		}
+		for i, pv := range fn.paramList {
+			if pv == nil {
+				continue
+			}
+			kind := a.kindOf(pv.Type())
+			if pure(pv.Type()) || !refCapable(kind) || a.statelessType(pv.Type()) {
+				continue
+			}
+			idx := i + 1
+			var verdict []string
+			prefix := fmt.Sprintf("arg %d:", idx)
+			for _, e := range a.edges {
+				if e.where == fn.qname && strings.HasPrefix(e.source, prefix) && strings.Contains(e.source, " of "+fn.qname) {
+					verdict = appendUnique(verdict, "kept: "+e.dest)
+				}
+			}
+			for k := range fn.retByIndex {
+				for _, r := range fn.retByIndex[k].sorted() {
+					if r.kind == "param" && strings.HasPrefix(r.name, fmt.Sprintf("%d:", idx)) {
+						d := describeRoot(r)
+						d = strings.Replace(d, fmt.Sprintf("parameter %d field ", idx), "its field ", 1)
+						d = strings.Replace(d, fmt.Sprintf("parameter %d", idx), "it", 1)
+						verdict = appendUnique(verdict, fmt.Sprintf("result %d %s", k+1, d))
+					}
+				}
+			}
+			for _, w := range fn.sortedWrites() {
+				if w.r.kind == "param" && !w.lock && strings.HasPrefix(w.r.name, fmt.Sprintf("%d:", idx)) {
+					verdict = appendUnique(verdict, "written")
+				}
+			}
+			sort.Strings(verdict)
+			if len(verdict) == 0 {
+				verdict = []string{"not-retained"}
+			}
+			row := [3]string{fn.qname, fmt.Sprintf("parameter %d [%s]", idx, kind), strings.Join(verdict, "; ")}
+			api[row] = true
+			if verdict[0] != "not-retained" {
+				det("api", fn.qname, fn.decl.Pos(), fmt.Sprintf("%s of %s is retained: %s", row[1], fn.qname, row[2]))
+			}
+		}
+	}
+	rep.Api = sorted3(api)
+	rep.StorageWrites = sorted3(sw)
+	rep.FieldSets = sorted3(fs)
+	rep.PublishOnce = []string{}
+	for _, si := range a.structList {
+		if si.role != "instance" {
+			continue
+		}
+		for _, f := range si.fields {
+			if a.holdsRawStorage(f.obj.Type()) && !inPlace[f.qname] && !nonFresh[f.qname] {
+				rep.PublishOnce = append(rep.PublishOnce, f.qname)
+			}
+		}
+	}
+	sort.Strings(rep.PublishOnce)
+}
+
+func appendUnique(l []string, s string) []string {
+	for _, x := range l {
+		if x == s {
+			return l
+		}
+	}
+	return append(l, s)
+}
+
+func uniq(l []string) []string {
+	var res []string
+	for _, x := range l {
+		res = appendUnique(res, x)
+	}
+	return res
 }
 
 func sorted3(m map[[3]string]bool) [][3]string {
@@ -946,6 +1158,19 @@ func coqOutput(rep, tagged *report, errMsg string) string {
 		}
 	}
 	fmt.Fprintf(&b, "(* function, what it writes through that is neither its receiver nor memory allocated in the call (a parameter, the result of a getter) *)\nDefinition foot_escapes : list (string * string) := %s.\n", clist(it))
+	t3("foot_api", "exported function of agent/, collection/, the module; result k / parameter n; fresh / not-retained or what it aliases, keeps, contains", rep.Api)
+	it = nil
+	seenSW := map[string]bool{}
+	for _, e := range rep.StorageWrites {
+		k := fmt.Sprintf("(%s, %s)", cs(e[0]), cs(e[1]))
+		if !seenSW[k] {
+			seenSW[k] = true
+			it = append(it, k)
+		}
+	}
+	fmt.Fprintf(&b, "(* method, receiver field (struct.[] for a slice or map receiver): storage reachable before the call is written in place *)\nDefinition foot_storage_writes : list (string * string) := %s.\n", clist(it))
+	t3("foot_field_sets", "method, field, what the field is set to that is not freshly allocated", rep.FieldSets)
+	fmt.Fprintf(&b, "(* slice / map / raw-storage fields that are only ever set to fresh memory and never written in place *)\nDefinition foot_publish_once : list string := %s.\n", cstrs(rep.PublishOnce))
 	// the build with the verif tag
 	fmt.Fprintf(&b, "(* the build with the tag verif *)\nDefinition foot_verif_exported_vars : list string := %s.\n", cstrs(tagged.Exported))
 	t3("foot_verif_pkgvar_unguarded", "the same as foot_pkgvar_unguarded for the build with the tag verif", tagged.Unguarded)
